@@ -1,10 +1,15 @@
 #!/bin/bash
 # try_seed.sh <patch.diff> <Cxx> [more Cyy ...]: apply a seeded change to /repo, run the quick checks, undo it.
+# The evidence files are put back afterwards (committed evidence comes from runs on the unchanged tree only).
 P=$1; shift
 git -C /repo apply "$P" || { echo "patch does not apply"; exit 2; }
+SAVE=$(mktemp -d /tmp/evsave-XXXX)
+cp /verif/evidence/*.json $SAVE/ 2>/dev/null
 for c in "$@"; do
   echo "== $c"
   (cd /verif && VERIF_DEV_NOPROOF=${NOPROOF:-} VERIF_DEV_NOBUILD=${NOBUILD:-} timeout 900 python3 tools/check.py $c --tier quick 2>&1 | tail -4 | cut -c1-300)
 done
 git -C /repo checkout -- .
+cp $SAVE/*.json /verif/evidence/ 2>/dev/null
+rm -rf $SAVE
 git -C /repo status --short | grep -v sipproxy
